@@ -6,13 +6,13 @@ while read id prop filt; do
   out=$(/verif/tools/try_seed.sh $id $prop $filt 2>&1 | tail -1)
   echo "$id $prop $filt -> $out"
 done <<'TAB'
-C01 C01 T3
-C02 C02 T3
+C01 C01 lspace
+C02 C02 gentable
 C03 C03 IsValidNumber
 C04 C04 HtmlEscapeRestarts
 C05 C05 SkipBlank
 C06 C06 StreamDecodeCopy
-C07 C07 T3
+C07 C07 gendepth
 C08 C08 EncodeOwnership
 C09 C09 LoadMany
 C11 C11 StructEscapedKey
@@ -23,14 +23,14 @@ C15 C15 ArrayOps
 C16 C16 LoadedReads
 C17 C17 StreamDecode3
 C18 C18 EncodeJsonMarshaler
-C19 C19 T3
+C19 C19 f32range
 C20 C20 QuoteLoop
-C01b C01 T3
-C02b C02 T3
+C01b C01 dec_array2_int:array
+C02b C02 dec_struct_s1
 C03b C03 EncodeJsonMarshaler
 C04b C03 IsValidNumber
 C05b C05 QuoteRestarts
-C06b C06 T3
+C06b C06 enc_string
 C07b C07 CalcBounds
 C08b C08 BuildPool
 C09b C09 CompileStruct
@@ -41,7 +41,25 @@ C14b C14 LazyHistory
 C15b C15 ObjectOps
 C16b C16 SearcherConcurrent
 C17b C17 StreamDecodeCopy
-C18b C18 T3
-C19b C19 T3
+C18b C18 structopts
+C19b C19 dec_uint32
 C20b C20 CorrectWith
+C01c C01 struct_empty
+C02c C02 ValidTrailing
+C03c C03 enc_map
+C04c C04 enc_string
+C05c C05 genblank
+C06c C06 UnmarshalCopies
+C07c C07 enctoodeep
+C08c C08 StackPoolClean
+C09c C09 PcacheStep4
+C11c C11 EfaceFastGate
+C12c C12 VMMarshalerFlags
+C13c C13 dec_bytes_noavx2
+C14c C14 UseNumberViews
+C15c C15 ObjectOps
+C17c C17 StreamDecode3
+C18c C18 EncodeFinish
+C19c C19 NodeFloat64
+C20c C04 enc_string
 TAB
